@@ -123,12 +123,21 @@ def b_includes(tier, seed):
             inside = _protected_lines(lines)
             top = split(lines, 0, depth_target) if not inside else lines
             nl = rnd.choice(["\n", "\n", "\r\n"])
+
+            def decoy(content):
+                # a # comment line that merely mentions comment openers / the word INCLUDE must not disturb the directives after it
+                if rnd.random() < 0.5:
+                    return content
+                ls = content.split("\n")
+                extra = rnd.choice(["  # tiles are in /data/tiles/*.tif", "  # see */ and /* in the docs", "  # the next INCLUDE lines are expanded", "  #INCLUDE \"not-a-directive.map\" is not at the start of this line"])
+                k = 1 if len(ls) > 1 and not ls[0].strip().lower().startswith("include") else 0
+                return "\n".join(ls[:k] + [extra] + ls[k:])
             for fn, content in files.items():
                 with open(os.path.join(base, fn), "w", encoding="utf-8", newline="") as fh:
-                    fh.write(content.replace("\n", nl))
+                    fh.write(decoy(content).replace("\n", nl))
             root_fn = os.path.join(base, "root.map")
             with open(root_fn, "w", encoding="utf-8", newline="") as fh:
-                fh.write("\n".join(top).replace("\n", nl))
+                fh.write(decoy("\n".join(top)).replace("\n", nl))
             os.chdir(rnd.choice([cwd0, root_dir, os.path.join(base, "sub")]))
             n += 1
             nesting = _nesting(top, files)
@@ -552,7 +561,7 @@ def b_update_find(tier, seed):
             elif patch and r < 0.15:
                 d[k] = "__delete__"
             else:
-                d[k] = rnd.choice([1, "x", 2.5, True, [1, 2], "y"])
+                d[k] = rnd.choice([1, "x", 2.5, True, [1, 2], "y", 0, "", False, 0.0, None] + ([] if patch else [[]]))
         return d
     N = 400 if tier != "thorough" else 8000
     for i in range(N):
@@ -572,7 +581,7 @@ def b_update_find(tier, seed):
         except Exception as ex:
             got = ("EXC", _exc(ex))
         if got != want:
-            fails.append(dict(key="update", d1=repr(d1)[:200], d2=repr(d2)[:200], overwrite=ow, got=repr(got)[:200], want=repr(want)[:200]))
+            fails.append(dict(key=f"update-{len(fails)}", d1=repr(d1)[:200], d2=repr(d2)[:200], overwrite=ow, got=repr(got)[:200], want=repr(want)[:200]))
         if _freeze(a2) != _freeze(d2):
             fails.append(dict(key="update-modified-the-patch", d2=repr(d2)[:200]))
     # find / findall / findunique / findkey
